@@ -1055,3 +1055,11 @@ M("C06-template-arg-comma-needs-zero-nesting", "C06", "src/cppparser/cppPreproce
 M("C06-benign-template-arg-nesting-lt-one", "C06", "src/cppparser/cppPreprocessor.cxx",
   "    case ',':\n      if (_paren_nesting <= 0) {", "    case ',':\n      if (_paren_nesting < 1) {",
   benign=True)
+
+MUTANTS.append({"id": "C15-unclosed-publish-reported-after-lexer-restore", "prop": "C15", "benign": False,
+  "expect": "R15.12|parse_cpp|no-report-after-restore",
+  "edits": [("src/cppparser/cppBison.yxx", "  if (publish_nest_level != 0) {\n    yyerror(\"Unclosed __begin_publish\", publish_loc);\n    publish_nest_level = 0;\n  }\n\n  current_scope = old_scope;\n  global_scope = old_global_scope;\n  current_lexer = old_lexer;\n",
+             "  current_scope = old_scope;\n  global_scope = old_global_scope;\n  current_lexer = old_lexer;\n\n  if (publish_nest_level != 0) {\n    yyerror(\"Unclosed __begin_publish\", publish_loc);\n    publish_nest_level = 0;\n  }\n")]})
+MUTANTS.append({"id": "C15-benign-restore-scopes-first", "prop": "C15", "benign": True, "expect": None,
+  "edits": [("src/cppparser/cppBison.yxx", "  if (publish_nest_level != 0) {\n    yyerror(\"Unclosed __begin_publish\", publish_loc);\n    publish_nest_level = 0;\n  }\n\n  current_scope = old_scope;\n  global_scope = old_global_scope;\n  current_lexer = old_lexer;\n",
+             "  current_scope = old_scope;\n  global_scope = old_global_scope;\n\n  if (publish_nest_level != 0) {\n    yyerror(\"Unclosed __begin_publish\", publish_loc);\n    publish_nest_level = 0;\n  }\n\n  current_lexer = old_lexer;\n")]})
